@@ -159,6 +159,8 @@ def current_cond(S, enc, f):
         return f['cond'] if enc.cond == 'arm' else AL
     if enc.cond == 'field':
         return f['cond']
+    if enc.cond == 'none':
+        return AL
     it = S.it()
     return z3.If(bits(it, 3, 0) != 0, bits(it, 7, 4), AL)
 
@@ -263,6 +265,9 @@ def step(S0, enc, f):
     R = St.merge(passed, Sx, Sn)
     if enc.thumb:
         R.set_it(z3.If(initb, P.it_advance(R.it()), R.it()))
+        if enc.attrs and 'it_restore' in enc.attrs:
+            # an exception return loads ITSTATE from the SPSR: that value is not advanced
+            R.set_it(z3.If(passed, enc.attrs['it_restore'](S0), R.it()))
     any_exc = z3.BoolVal(False)
     for e in reversed(excs):
         R = St.merge(z3.And(passed, e.cond), take(e.kind, e.snap, e.kw), R)
@@ -273,6 +278,9 @@ def step(S0, enc, f):
     ni = z3.And(z3.Not(und), passed, _b(enc.notimpl(f, S0))) if enc.notimpl else z3.BoolVal(False)
     info = {'passed': passed, 'undefined': und, 'exception': z3.Or(any_exc, und), 'cond': cond, 'notimpl': ni}
     return R, unp, info
+
+
+step._it_restore_aware = True
 
 
 # ---------------------------------------------------------------------------
